@@ -32,3 +32,11 @@ Example tie_merge_errchan_model :
   | _, _ => false
   end = true.
 Proof. vm_compute; reflexivity. Qed.
+(* the worker touches exactly the receiver fields the interleaving model accounts for:
+   the two lock-protected accumulators, the input channel, the (thread-safe, content-addressed)
+   object store, the error channel, the wait group, the mutex, the read-only table header,
+   the logger and the (mutex-protected, see fix 7fd...) progress bar.  A new field reachable from
+   every worker is shared state the model knows nothing about. *)
+Example tie_worker_fields :
+  pool_worker_fields = ["asyncBlocks"; "blocks"; "db"; "errChan"; "logger"; "mutex"; "pt"; "rowsCount"; "tbl"; "wg"].
+Proof. vm_compute; reflexivity. Qed.
